@@ -19,6 +19,12 @@ The loop exits iff both pieces are sentinels.  Paper argument: O2-O5 give that t
 non-empty intersections of classes of p1 and p2 restricted to the union of their intervals, in increasing order;
 O6 gives that no two adjacent emitted intervals lie in the same classes of both inputs.  merge_partition_list must
 be a left fold of merge_partitions from the empty partition.
+
+R3 (reported under C12 only) - the literal first clause of the property.  The classes of the result are intervals, whereas
+(interval class of one input) x (complementary class of the other) need not be contiguous: whenever an interval of one
+partition lies strictly inside an interval of the other, the outer interval's remainder is emitted as a second class.
+This is a KNOWN FINDING (known_findings.json): the result is the coarsest common refinement *into intervals* (O1-O6),
+not the coarsest common refinement as an equivalence relation; it cannot be repaired without giving up interval classes.
 """
 from .. import terms as T
 from .. import interp as X
@@ -197,6 +203,25 @@ def r1_merge(ctx, MAX, cfgs=('dev', 'rel')):
                 if ev2[0] in ('may-wrap', 'may-truncate'):
                     ctx.obligation(False)
                     ctx.violation('C12.R1', 'C12.R1/merge_partitions/arith:%s:%s' % (br, ev2[1][2]), fn.path, '%s:%s' % (fn.file, ev2[1][1]), {'kind': ev2[0], 'expression': ev2[2]}, cfg)
+            # R3 (only under C12 itself: a finer result is harmless for every property that merely uses the classes).
+            # "Same class of the result exactly when same class of p1 and of p2": the classes of the result must be the
+            # non-empty intersections (class of p1) x (class of p2).  An interval class meets the COMPLEMENT of the other
+            # partition in a set that need not be contiguous, so an emitted interval that is the part of a piece lying
+            # below the other partition's pending interval exhausts its class pair only if that pending interval does
+            # not end strictly inside the piece.
+            if ctx.own_module:
+                for (lo, hi, olo, ohi, who) in ((a, b, c, d, 'p1'), (c, d, a, b, 'p2')):
+                    if not ip.entails(bst, all_(le(lo, x), le(y, hi), le(hi, I(MAX)), lt(y, olo))):
+                        continue
+                    splits = all_(le(olo, hi), lt(ohi, hi), le(ohi, I(MAX)))
+                    okp = ip.entails(bst, NOT(splits))
+                    ctx.obligation(okp)
+                    key = 'C12.R3/merge_partitions/class-(interval,complement)-is-emitted-in-several-pieces:%s:%s' % (br, who)
+                    if okp:
+                        ctx.ok('C12.R3', 'C12.R3/merge_partitions/class-pair-exhausted:%s:%s' % (br, who), fn.path, fn.site(), None, cfg)
+                    else:
+                        ctx.violation('C12.R3', key, fn.path, fn.site(), {'branch': br, 'piece_of': who, 'emitted': '[%s, %s]' % (T.show(x), T.show(y)),
+                                      'why': 'the pending interval of the other partition may end strictly inside this piece; the rest of the piece is emitted later as another class of the result although it lies in the same class of both inputs'}, cfg)
         okb = len(branch_roles) >= 7
         ctx.obligation(okb)
         (ctx.ok if okb else ctx.violation)('C12.R1', 'C12.R1/merge_partitions/branches-analysed', fn.path, fn.site(), {'branches': sorted(branch_roles)}, cfg)
